@@ -2,7 +2,7 @@
 import ast
 
 from ..model import AnalysisError, Model, walk_no_nested, norm_stmt, names_in
-from .. import flow
+from .. import flow, sem
 
 EXPLANATION = (
     'Decides the cache-key clause of C17 from the source of asn1tools/compiler.py: in the function that consults '
@@ -297,6 +297,86 @@ def check(ctx):
                                   'compile_files(cache_dir=...) pickles, so a specification returned from the cache in another process lacks this state and behaves differently '
                                   'from a fresh compile' % (cands[tgt.attr].name, tgt.attr), stmt=norm_stmt(Model.enclosing_stmt(n_)))
     ctx.instance('C17.R7', 'classes of asn1tools/codecs and compiler.py: %d writes into class-level containers' % n7, 'ok' if n7 == 0 else 'VIOLATION', nontrivial=True)
+    # ---- R8: a hit returns what pickle rebuilds.  A class that customises pickling so that state is dropped and recomputed when loading gives the
+    #      cached specification a second construction path next to __init__; the two must be the same code, otherwise hit and miss differ.
+    ctx.rule('C17.R8', 'no class of the compiled object graph customises pickling so that a cache hit rebuilds state by other code than __init__')
+    HOOKS = ('__getstate__', '__setstate__', '__reduce__', '__reduce_ex__', '__getnewargs__', '__getnewargs_ex__')
+    n8 = 0
+    ncls = 0
+
+    def identity_getstate(g_):
+        rets = [r_ for r_ in walk_no_nested(g_) if isinstance(r_, ast.Return)]
+        v_ = sem.View(g_)
+        drops = any(isinstance(n_, ast.Delete) for n_ in walk_no_nested(g_)) or \
+            any(isinstance(n_, ast.Call) and isinstance(n_.func, ast.Attribute) and n_.func.attr in ('pop', 'popitem', 'clear', '__delitem__') for n_ in walk_no_nested(g_))
+        return bool(rets) and not drops and all(r_.value is not None and v_.text(r_.value) in ('self.__dict__', 'self.__dict__.copy()', 'dict(self.__dict__)', 'vars(self)', 'dict(vars(self))') for r_ in rets)
+
+    def identity_setstate(g_):
+        body = [s_ for s_ in g_.body if not (isinstance(s_, ast.Expr) and isinstance(s_.value, ast.Constant))]
+        st = flow.param_names(g_)[1] if len(flow.param_names(g_)) > 1 else None
+        for s_ in body:
+            t_ = ast.unparse(s_)
+            if t_ not in ('self.__dict__.update(%s)' % st, 'self.__dict__ = %s' % st, 'self.__dict__ = dict(%s)' % st, 'vars(self).update(%s)' % st):
+                return False
+        return bool(body)
+
+    for m_ in model.modules.values():
+        if not (m_.rel.startswith('asn1tools/codecs/') or m_.rel in (F, 'asn1tools/errors.py')):
+            continue
+        for c_ in m_.classes.values():
+            ncls += 1
+            hooks = {h: c_.methods[h] for h in HOOKS if h in c_.methods}
+            if not hooks:
+                continue
+            n8 += 1
+            init_r = c_.find_method('__init__')
+            init_assigns = {}
+            if init_r:
+                for n_ in walk_no_nested(init_r[1]):
+                    if isinstance(n_, ast.Assign) and len(n_.targets) == 1 and isinstance(n_.targets[0], ast.Attribute) and isinstance(n_.targets[0].value, ast.Name) \
+                            and n_.targets[0].value.id == 'self':
+                        init_assigns.setdefault(n_.targets[0].attr, []).append(ast.unparse(n_.value))
+            bad = None
+            for h, g_ in sorted(hooks.items()):
+                if h == '__getstate__' and identity_getstate(g_):
+                    continue
+                if h == '__setstate__':
+                    if identity_setstate(g_):
+                        continue
+                    # recomputation is acceptable only through the very call __init__ makes for that attribute:  self.x = self.build_x(...)
+                    same = True
+                    st = flow.param_names(g_)[1] if len(flow.param_names(g_)) > 1 else None
+                    for s_ in g_.body:
+                        if isinstance(s_, ast.Expr) and isinstance(s_.value, ast.Constant):
+                            continue
+                        if ast.unparse(s_) in ('self.__dict__.update(%s)' % st, 'self.__dict__ = %s' % st):
+                            continue
+                        if isinstance(s_, ast.Assign) and len(s_.targets) == 1 and isinstance(s_.targets[0], ast.Attribute) and isinstance(s_.value, ast.Call) \
+                                and ast.unparse(s_.value) in init_assigns.get(s_.targets[0].attr, []) and isinstance(s_.value.func, ast.Attribute) \
+                                and isinstance(s_.value.func.value, ast.Name) and s_.value.func.value.id == 'self':
+                            continue
+                        same = False
+                    if same:
+                        continue
+                    bad = (g_, '__setstate__ rebuilds part of the object with its own code (not the call __init__ makes)')
+                    break
+                if h == '__getstate__':
+                    # state is dropped: fine only if __setstate__ restores it through the same call as __init__ (decided at __setstate__)
+                    if '__setstate__' in hooks:
+                        continue
+                    bad = (g_, '__getstate__ drops or transforms state and there is no __setstate__ that restores it')
+                    break
+                bad = (g_, '%s customises how the object is pickled' % h)
+                break
+            ctx.instance('C17.R8', '%s pickling hooks %s' % (c_.qname, sorted(hooks)), 'identity / shared construction code' if bad is None else 'VIOLATION', node=list(hooks.values())[0], file=m_.rel)
+            if bad is not None:
+                ctx.violation('C17.R8', m_.rel, bad[0], Model.qual(bad[0]),
+                              '%s: the compile cache stores the pickled Specification, so a cache hit returns an object built by this code while a miss (and an uncached compile) '
+                              'returns the one built by __init__ -- two implementations that must agree for every specification (duplicate type names, ordering, ...)' % bad[1],
+                              stmt='custom pickling of %s' % c_.name)
+    ctx.instance('C17.R8', '%d classes of the compiled object graph, %d with pickling hooks' % (ncls, n8), 'ok', nontrivial=False)
+    if ncls < 100:
+        raise AnalysisError('C17.R8 saw only %d classes' % ncls)
     ctx.floor('C17.R1', 2)
     ctx.floor('C17.R3', 1)
     ctx.floor('C17.R4', 1)
@@ -349,3 +429,31 @@ MUTANTS.append(dict(name='compiled struct objects memoised in a class-level tabl
         self.STRUCTS[fmt] = fmt
 
     def __init__(self, name):""", expect='C17.R7'))
+
+MUTANTS.append(dict(name='Specification drops the derived type table when pickled and rebuilds it when loaded', file=F, quick=True,
+                    old="""    @property
+    def types(self):""", new="""    def __getstate__(self):
+        state = self.__dict__.copy()
+        del state['_types']
+        return state
+
+    def __setstate__(self, state):
+        self.__dict__.update(state)
+        self._types = {}
+
+        for types in self._modules.values():
+            for type_name, type_ in types.items():
+                self._types[type_name] = type_
+
+    @property
+    def types(self):""", expect='C17.R8'))
+REFACTORS.append(dict(name='explicit identity pickling hooks on Specification', file=F,
+                      old="""    @property
+    def types(self):""", new="""    def __getstate__(self):
+        return self.__dict__.copy()
+
+    def __setstate__(self, state):
+        self.__dict__.update(state)
+
+    @property
+    def types(self):"""))
